@@ -42,7 +42,7 @@ func (g *gen) group(n int, senders ...int) subSpec {
 	return s
 }
 
-var txViolations = []string{"sigflip", "sigother", "signil", "tobad", "toblocked", "fromblocked", "onchain",
+var txViolations = []string{"sigflip", "sigother", "signil", "tobad", "toblocked", "evmcontract", "evmpara", "fromblocked", "onchain",
 	"expheight", "expheight-1", "expbt", "expbt-3", "soon", "txheightlow", "txheighthigh", "feelow", "feehigh",
 	"chainbad", "toobig", "execbad", "noncelow", "noncepend"}
 
@@ -62,6 +62,8 @@ func (g *gen) applyTx(s *subSpec, k int, v string) bool {
 		t.To = "bad"
 	case "toblocked":
 		t.To = "blocked"
+	case "evmcontract", "evmpara":
+		t.To = v
 	case "fromblocked":
 		t.Sender = kBlocked
 	case "onchain":
@@ -130,6 +132,8 @@ func (g *gen) benign(t *txSpec) {
 		t.ExpMode, t.ExpOff = "txheight", int64(hlib.Pick(g.r, []int{-600, 0, 200}))
 	case 4:
 		t.Pad = g.r.Range(900, 2100)
+	case 5:
+		t.To = "evmok"
 	}
 }
 
